@@ -27,8 +27,10 @@ def UO3():
 
 def UOW():
     """names that end in the marker suffix next to their stems"""
-    return Universe([Node('a', 'R', 'a'), Node('awo', 'R', 'a_wo'), Node('a_b', 'a', 'b'), Node('a_bwo', 'a', 'b_wo'),
-                     Node('x', 'R', 'x', True)], 'UOW')
+    # the *_wo entries are files only: a directory named <stem>_wo collides with the marker of <stem> by design
+    # (which is why '*_wo' is reserved); as plain files they are ordinary entries of the unchanged code
+    return Universe([Node('a', 'R', 'a'), Node('awo', 'R', 'a_wo', kinds=('f',)), Node('a_b', 'a', 'b'),
+                     Node('a_bwo', 'a', 'b_wo', kinds=('f',)), Node('x', 'R', 'x', True)], 'UOW')
 
 
 def UO4():
